@@ -2,14 +2,14 @@
 #include "corpus.hpp"
 
 std::string Recipe::key() const {
-  return fmt("ch=%d rate=%ld q=%.4f mode=%d nom=%ld n=%lld sig=%d seed=%llu nc=%d bs64=%d", ch, rate, q, mode, nominal, (long long)n, sig, (unsigned long long)seed, ncomm, bs64);
+  return fmt("ch=%d rate=%ld q=%.4f mode=%d nom=%ld n=%lld sig=%d seed=%llu nc=%d bs64=%d cut=%d", ch, rate, q, mode, nominal, (long long)n, sig, (unsigned long long)seed, ncomm, bs64, cut);
 }
 void Recipe::to(Rec &r) const {
-  r.set("ch", ch).set("rate", rate).setf("q", q).set("mode", mode).set("nom", nominal).set("n", n).set("sig", sig).setu("seed", seed).set("nc", ncomm).set("bs64", bs64);
+  r.set("ch", ch).set("rate", rate).setf("q", q).set("mode", mode).set("nom", nominal).set("n", n).set("sig", sig).setu("seed", seed).set("nc", ncomm).set("bs64", bs64); if (cut) r.set("cut", cut);
 }
 Recipe Recipe::from(const Rec &r) {
   Recipe x; x.ch = (int)r.i("ch", 2); x.rate = r.i("rate", 44100); x.q = r.f("q", 0.4); x.mode = (int)r.i("mode", 0); x.nominal = r.i("nom", 0);
-  x.n = r.i("n", 20000); x.sig = (int)r.i("sig", 0); x.seed = r.u("seed", 1); x.ncomm = (int)r.i("nc", 2); x.bs64 = (int)r.i("bs64", 0);
+  x.n = r.i("n", 20000); x.sig = (int)r.i("sig", 0); x.seed = r.u("seed", 1); x.ncomm = (int)r.i("nc", 2); x.bs64 = (int)r.i("bs64", 0); x.cut = (int)r.i("cut", 0);
   return x;
 }
 
@@ -119,7 +119,15 @@ static void encode_link(Link &l) {
     }
   }
   vorbis_block_clear(&vb); vorbis_dsp_clear(&vd); vorbis_comment_clear(&vc); vorbis_info_clear(&vi);
-  if (r.bs64 && l.hdr[0].data.size() >= 30) { l.hdr[0].data[28] = (uint8_t)((l.hdr[0].data[28] & 0xF0) | 6); l.bs0 = 64; }
+  if (r.cut > 0) { size_t c = std::min<size_t>((size_t)r.cut, l.audio.size() > 3 ? l.audio.size() - 3 : 0); l.audio.erase(l.audio.begin(), l.audio.begin() + c); }
+  if (r.bs64) {
+    // 64-sample short blocks (C20 refusal clause; the bundled encoder cannot emit them): rewrite the short block size in the ID header.
+    // That yields a *consistent* stream only if no audio packet other than the mandatory first one is a short block; then the
+    // stream merely looks like one whose first page starts (256-64)/4.. samples late, which the format allows. Otherwise: reject.
+    bool all_long = l.audio.size() >= 2; for (size_t i = 1; i < l.audio.size(); i++) if (l.audio[i].bs != l.bs1) all_long = false;
+    if (!all_long || l.hdr[0].data.size() < 30) { l.ok = false; return; }
+    l.hdr[0].data[28] = (uint8_t)((l.hdr[0].data[28] & 0xF0) | 6); l.bs0 = 64;
+  }
   l.ok = true;
 }
 
